@@ -55,9 +55,11 @@ theorem limit_allows_update_and_room (T : Nat) (hT : legalThreshold T = true) (D
   obtain ⟨old, m', c', heq, _⟩ := hs.2 hnl
   exact ⟨old, m', c', heq⟩
 
-/-- Iteration order is canonical: ascending lexicographic order of the digest vectors; pairs with
-    identical digest vectors (full collisions) keep their relative order of insertion, which is the
-    order of `toList` (the insertion-ordered list at the last level only ever appends). -/
+/-- Iteration order is canonical: ascending lexicographic order of the digest vectors (pairwise: equal
+    vectors or strictly ascending).  THIS theorem does not say in which order pairs with IDENTICAL digest
+    vectors (full collisions) appear; that they keep their order of insertion is
+    `C12.full_collisions_keep_insertion_order` / `C12.new_colliding_key_is_appended`
+    (Props/C12Shape.lean). -/
 theorem order_canonical (T : Nat) (D : DigestFn (r + 1)) (m : OMap r) (h : MapInv T D m) :
     (m.toList.map (fun p => p.1.digs)).Pairwise (fun a b => a = b ∨ List.Lex (· < ·) a b) :=
   MTreeInv.ordered m.d true m.root h.tree
